@@ -61,6 +61,7 @@ class Interp(CoreMixin, ExprMixin, StmtMixin, CallMixin):
         self._class_env = {}
         self._loop_depth = 0
         self._cur_fn = None
+        self._phi_res_memo = {}
         self.watch_locals = set()
         self.kept_locals = {}
         self.watch_calls = set()
@@ -132,6 +133,7 @@ class Interp(CoreMixin, ExprMixin, StmtMixin, CallMixin):
         logged during this call."""
         st = st if st is not None else St()
         n0 = len(self.effects)
+        start_id = len(self.g.nodes)
         mod = None
         f = fn
         while f.op in ("BoundMethod", "PlotWrap"):
@@ -144,7 +146,9 @@ class Interp(CoreMixin, ExprMixin, StmtMixin, CallMixin):
         except PathEnd:
             v = None
         val = self.snapshot(v, st) if v is not None else None
-        return Result(self, val, st, self.effects[n0:], dict(inputs or {}), self_node, name)
+        r = Result(self, val, st, self.effects[n0:], dict(inputs or {}), self_node, name)
+        r.start_id = start_id
+        return r
 
     def run_method(self, obj: Node, method: str, pos=(), kw=None, st: St = None, inputs=None):
         st = st if st is not None else St()
